@@ -30,7 +30,7 @@ type c11r struct{ base }
 
 func init() {
 	runner.Register(&c11{base{id: "C11", level: "exploration",
-		rule: "three monitors over concurrent workloads on ONE client (both adapters). (1) race detector: the -race build runs 2-16 goroutines issuing every exported client method and helper (data ops, batch ops, Create/Delete/Update/DescribeTable on a small name pool, AddTable/AddIndex/ClearTable, failure toggles, ActivateDebug, ActivateNativeInterpreter, SetInterpreter, GetNativeInterpreter, SetItemCollectionMetrics, TransactWriteItems), repeated; plus workloads in which every goroutine has its OWN client (model-checked histories and native-interpreter dispatch: state shared between instances); every 'WARNING: DATA RACE' block or fatal 'concurrent map' error with a minidyn frame is a violation (signature = pair of outermost client entry points). (2) conservation: N concurrent 'ADD c :1' => c = N; N racing attribute_not_exists puts with unique payloads => exactly one succeeds and its payload is stored; N racing CreateTable(same name) => exactly one succeeds; create/delete ping-pong => ok-creates - ok-deletes in {0,1} = table exists; concurrent k-item batches vs Scans => every Scan sees 0 or k items of a batch; k-item batch writes / reads vs goroutines toggling the emulated failures => every batch is applied completely or not at all and applied + unprocessed = k. (3) linearizability: many short histories (2-4 goroutines x 3-5 ops) with unique written values, invoke/return timestamps taken at the client boundary from one monotonic clock, yield/sleep policy installed at the verifhook sites, checked with porcupine against the sequential reference model (catalogue + tables + failure switch); a call that does not return within the watchdog is a deadlock. non-trivial = at least two operations of different goroutines overlapped in time on the same table; distinct by (profile, adapter, event-order fingerprint).",
+		rule: "three monitors over concurrent workloads on ONE client (both adapters). (1) race detector: the -race build runs 2-16 goroutines issuing every exported client method and helper (data ops, batch ops, Create/Delete/Update/DescribeTable on a small name pool, AddTable/AddIndex/ClearTable, failure toggles, ActivateDebug, ActivateNativeInterpreter, SetInterpreter, GetNativeInterpreter, SetItemCollectionMetrics, TransactWriteItems), repeated; plus workloads in which every goroutine has its OWN client (model-checked histories and native-interpreter dispatch: state shared between instances); every 'WARNING: DATA RACE' block or fatal 'concurrent map' error with a minidyn frame is a violation (signature = pair of outermost client entry points). (2) conservation: N concurrent 'ADD c :1' => c = N; N racing attribute_not_exists puts with unique payloads => exactly one succeeds and its payload is stored; N racing CreateTable(same name) => exactly one succeeds; create/delete ping-pong => ok-creates - ok-deletes in {0,1} = table exists; concurrent k-item batches vs Scans => every Scan sees 0 or k items of a batch; k-item batch writes / reads vs goroutines toggling the emulated failures => every batch is applied completely or not at all and applied + unprocessed = k. (3) linearizability: many short histories (2-4 goroutines x 3-5 ops) with unique written values, invoke/return timestamps taken at the client boundary from one monotonic clock, yield/sleep policy installed at the verifhook sites, checked with porcupine against the sequential reference model (catalogue + tables + failure switch); a call that does not return within the watchdog is a deadlock. non-trivial = at least two operations of different goroutines overlapped in time on the same table; distinct by (profile, adapter, event-order fingerprint). Two conservation laws also run with the native interpreter active and the work done by registered callbacks that yield and sleep 20us: N x 5 increments by an updater, N racing puts guarded by a matcher.",
 		assumptions: append([]string{"interleavings are sampled, not covered; the race detector reports unsynchronised access pairs from the happens-before relation of the executions it saw", "porcupine v1.3.0 is trusted as the history checker"}, commonAssumptions...)}})
 	runner.Register(&c11r{base{id: "C11R", level: "exploration", rule: "race-detector workload of C11", assumptions: commonAssumptions}})
 }
